@@ -1,6 +1,15 @@
 import PqlModel.Props.C13
 import PqlModel.Props.C13Exact
 import PqlModel.Props.C13Arity
+import PqlModel.Props.C01WriteExprIRAll
+import PqlModel.Props.C06CompileIR
+import PqlModel.Props.C07OperatorIRTreesA
+import PqlModel.Props.C07OperatorIRTreesB
+import PqlModel.Props.C07OperatorIRSort
+import PqlModel.Props.C07OperatorIRExtend
+import PqlModel.Props.C07OperatorIRProject
+import PqlModel.Props.C07OperatorIRLet
+import PqlModel.Props.C07OperatorIRTabular
 #print axioms Pql.C13.C13_either
 #print axioms Pql.C13.C13_arity_table
 #print axioms Pql.C13.C13_arity_agrees
@@ -21,3 +30,6 @@ import PqlModel.Props.C13Arity
 #print axioms Pql.Glue.C13_arity_guards_agree
 #print axioms Pql.Glue.C13_passthrough_arity
 #print axioms Pql.Glue.C13_aggregate_in_where_sql
+#print axioms Pql.ExprIR.C01_writeExpression_ir
+#print axioms Pql.ExprIR.known_eq
+#print axioms Pql.ExprIR.C06_compile_ir
